@@ -1,13 +1,8 @@
 #!/bin/bash
-# run_on_seed.sh <patch.diff> [property ...]  : applies the patch to /repo, runs the quick checks, reverts.
+# run_on_seed.sh <patch.diff> : applies the patch to /repo, runs every property's rules once (kzcheck -all), reverts.
 set -u
-patch=$1; shift
-props="${*:-C01 C02 C03 C04 C05 C06 C07 C08 C09 C10 C11 C12 C13 C14 C15 C17 C18 C19}"
+patch=$1
 git -C /repo status --short | grep -q . && { echo "/repo not clean"; exit 2; }
 git -C /repo apply "$patch" || { echo "patch does not apply"; exit 2; }
 trap 'git -C /repo checkout -- . ; git -C /repo clean -fdq' EXIT
-for c in $props; do
-  out=$(/verif/bin/kzcheck -no-evidence -property $c 2>&1); e=$?
-  if [ $e -ne 0 ]; then echo "$c exit=$e"; echo "$out" | grep -- "-> \|UNDECIDED" | cut -c1-260; fi
-done
-echo "done"
+/verif/bin/kzcheck -all | cut -c1-300
